@@ -5,6 +5,7 @@ from __future__ import annotations
 import ast
 
 from ..model import AnalysisError, src, norm_stmt
+from ..astutil import Canon, const_slice, strip_wrappers
 
 META = {
     "explanation": "Syntax-directed dataflow over Pseudotrajectory.generate_pseudotrajectory / get_pt_as_universe and the writers in "
@@ -33,6 +34,23 @@ def chain(e):
     return src(e)
 
 
+def _bind(call, fnode, skip_self=True):
+    """bind the arguments of `call` to the parameter names of function `fnode` -> {param: expr} or None"""
+    params = [a.arg for a in fnode.args.posonlyargs + fnode.args.args]
+    if skip_self and params and params[0] in ("self", "cls"):
+        params = params[1:]
+    out = {}
+    for k, a in enumerate(call.args):
+        if isinstance(a, ast.Starred) or k >= len(params):
+            return None
+        out[params[k]] = a
+    for kw in call.keywords:
+        if kw.arg is None:
+            return None
+        out[kw.arg] = kw.value
+    return out
+
+
 def run(ctx, repo, tier):
     pci = repo.cls("molgri.molecules.pts", "Pseudotrajectory")
     gen = pci.methods.get("generate_pseudotrajectory")
@@ -48,78 +66,107 @@ def run(ctx, repo, tier):
         return
     loop = loops[0]
     ctx.instance("RESET")
-    # the loop iterates over the grid rows in order
-    it = loop.iter
-    it_src = src(it)
-    defs = {}
-    for n in gen.node.body:
-        if isinstance(n, ast.Assign) and isinstance(n.targets[0], ast.Name):
-            defs[n.targets[0].id] = n
-    it_val = src(defs[it.id].value) if isinstance(it, ast.Name) and it.id in defs else it_src
-    ctx.check(it_val in ("self.full_grid", "self.get_full_grid()"), "ORD", "C10.rows", "frames are generated by iterating over the grid array "
-              "rows in their order", where, f"for {src(loop.target)} in {it_src}", witness=f"iterates over {it_val}")
-    row = loop.target.id if isinstance(loop.target, ast.Name) else None
-
-    # ---------------- collect statements of the loop body in order (top level of the body)
     body = loop.body
+    pre = []
+    for n in gen.node.body:
+        if n is loop:
+            break
+        pre.append(n)
+    loop_targets = {m.id for m in ast.walk(loop.target) if isinstance(m, ast.Name)}
+    pre_defs = Canon.single_defs(gen.node.body, exclude=loop_targets)
+    pre_defs = {k: v for k, v in pre_defs.items() if any(v is getattr(st, "value", None) for st in pre)}
+    loc_defs = Canon.single_defs(gen.node.body, exclude=loop_targets)
+    loc_defs = {k: v for k, v in loc_defs.items() if k not in pre_defs and any(v is getattr(st, "value", None) for st in body)}
+    cpre = Canon(pre_defs)
+    call_ = Canon({**pre_defs, **loc_defs})
     assigned_in_loop = set()
     for n in ast.walk(ast.Module(body=body, type_ignores=[])):
-        if isinstance(n, ast.Assign):
-            for t in n.targets:
+        if isinstance(n, (ast.Assign, ast.AugAssign, ast.AnnAssign)):
+            for t in (n.targets if isinstance(n, ast.Assign) else [n.target]):
                 if isinstance(t, ast.Name):
                     assigned_in_loop.add(t.id)
+    # ---------------- the loop iterates over the grid rows in order
+    it = loop.iter
+    it_txt = cpre.text(it)
+    row = loop.target.id if isinstance(loop.target, ast.Name) else None
+    if isinstance(it, ast.Call) and isinstance(it.func, ast.Name) and it.func.id == "enumerate" and isinstance(loop.target, ast.Tuple) and \
+            len(loop.target.elts) == 2 and isinstance(loop.target.elts[1], ast.Name) and it.args:
+        row = loop.target.elts[1].id
+        it_txt = cpre.text(it.args[0])
+    reorder = [n for n in ast.walk(cpre.expand(it)) if (isinstance(n, ast.Call) and src(n.func).split(".")[-1] in
+               ("reversed", "sorted", "flip", "flipud", "permutation", "shuffle", "unique", "sort")) or
+               (isinstance(n, ast.Subscript) and const_slice(n) is not None and const_slice(n)[2] not in (None, 1))]
+    if it_txt in ("self.full_grid", "self.get_full_grid()"):
+        ctx.ok("ORD", "C10.rows", "frames are generated by iterating over the grid array rows in their order", where, f"for {src(loop.target)} in {src(it)}")
+    elif reorder:
+        ctx.violate("ORD", "C10.rows", "the frame loop does not visit the grid rows in their stored order", where, f"for {src(loop.target)} in {src(it)}",
+                    witness=f"re-ordering construct: {src(reorder[0])[:80]}")
+    else:
+        ctx.inconclusive("ORD", "C10.rows", "iteration source of the frame loop not recognised as the grid array", where, witness=it_txt[:120])
+
+    # ---------------- collect statements of the loop body in order (top level of the body)
     mutator_sites = []
     resets = []
+    nested_resets = []
     for k, st in enumerate(body):
         for n in ast.walk(st):
             if isinstance(n, ast.Call) and isinstance(n.func, ast.Attribute) and n.func.attr in MUTATORS:
-                mutator_sites.append((k, st, n, chain(n.func.value)))
+                mutator_sites.append((k, st, n, call_.text(n.func.value)))
+            if isinstance(n, (ast.Assign, ast.AugAssign)) and n is not st:
+                tg = n.targets[0] if isinstance(n, ast.Assign) else n.target
+                if isinstance(tg, ast.Attribute) and tg.attr == "positions":
+                    nested_resets.append((k, n, call_.text(tg.value)))
         if isinstance(st, ast.Assign) and len(st.targets) == 1 and isinstance(st.targets[0], ast.Attribute) and st.targets[0].attr == "positions":
-            resets.append((k, st, chain(st.targets[0].value)))
+            resets.append((k, st, call_.text(st.targets[0].value)))
+        if isinstance(st, ast.AugAssign) and isinstance(st.target, ast.Attribute) and st.target.attr == "positions":
+            mutator_sites.append((k, st, st, call_.text(st.target.value)))
     ctx.instance("RESET", len(mutator_sites))
     if not mutator_sites:
         ctx.inconclusive("RESET", "C10.reset", "no rotate/translate call found in the frame loop", where)
+    last_mut = max([k for k, *_ in mutator_sites], default=-1)
     for k, st, call, recv in mutator_sites:
+        mname = call.func.attr if isinstance(call, ast.Call) else "positions +="
         # loop-fresh receivers need no reset
-        root = recv.split(".")[0]
-        if root in assigned_in_loop and root != "self":
-            ctx.ok("RESET", "C10.reset", f"{call.func.attr}() acts on an object created inside the iteration", where, src(call)[:120])
+        root = src(call.func.value).split(".")[0] if isinstance(call, ast.Call) else ""
+        if root in assigned_in_loop and root != "self" and root not in pre_defs and not call_.text(ast.Name(id=root, ctx=ast.Load())).startswith("self."):
+            ctx.ok("RESET", "C10.reset", f"{mname}() acts on an object created inside the iteration", where, src(call)[:120])
             continue
-        dom = [r for r in resets if r[2] == recv and r[0] < k]
+        same = [r for r in resets if r[2] == recv]
+        before = [r for r in same if r[0] < k]
+        after = [r for r in same if r[0] > last_mut]
         good = None
-        for rk, rst, rrecv in dom:
-            v = rst.value
-            if isinstance(v, ast.Name) and v.id not in assigned_in_loop and v.id in defs:
+        unknown_src = None
+        for rk, rst, rrecv in before or after:
+            v = strip_wrappers(rst.value)
+            if isinstance(v, ast.Name) and v.id in pre_defs and v.id not in assigned_in_loop:
                 good = (rst, v.id)
-            elif isinstance(v, ast.Call) and isinstance(v.func, ast.Attribute) and v.func.attr == "copy" and isinstance(v.func.value, ast.Name) \
-                    and v.func.value.id not in assigned_in_loop and v.func.value.id in defs:
-                good = (rst, v.func.value.id)
+            else:
+                unknown_src = rst
         if good:
-            snap = defs[good[1]]
-            ctx.ok("RESET", "C10.reset", f"{call.func.attr}() is preceded in every iteration by a restore of the positions from the "
-                   f"loop-invariant snapshot `{good[1]}`", where, src(call)[:120], derived=norm_stmt(good[0]))
-            ok_snap = src(snap.value) == recv + ".positions" or src(snap.value).startswith(recv + ".positions")
-            ctx.check(ok_snap, "RESET", "C10.reset.snapshot", "the snapshot is the moving molecule's own starting geometry taken before the "
-                      "loop", where, norm_stmt(snap), witness=src(snap.value))
+            snap = pre_defs[good[1]]
+            pos_txt = "before" if before else "at the end of"
+            ctx.ok("RESET", "C10.reset", f"{mname}() is paired in every iteration with a restore of the positions ({pos_txt} the "
+                   f"iteration) from the loop-invariant snapshot `{good[1]}`", where, src(call)[:120], derived=norm_stmt(good[0]))
+            stxt = cpre.text(strip_wrappers(snap))
+            if stxt == recv + ".positions":
+                ctx.ok("RESET", "C10.reset.snapshot", "the snapshot is the moving molecule's own starting geometry taken before the loop", where,
+                       "starting_positions = ...")
+            elif stxt.endswith(".positions"):
+                ctx.violate("RESET", "C10.reset.snapshot", "the positions are restored from the geometry of a DIFFERENT atom group", where,
+                            src(snap)[:100], witness=f"snapshot of {stxt}, restored into {recv}")
+            else:
+                ctx.inconclusive("RESET", "C10.reset.snapshot", "origin of the restored geometry not recognised", where, witness=stxt[:120])
+        elif unknown_src is not None or any(r[2] == recv for r in nested_resets):
+            ctx.inconclusive("RESET", "C10.reset", "a restore of the positions exists but its source / placement is not of a recognised form", where,
+                             witness=norm_stmt(unknown_src) if unknown_src is not None else "restore nested in a compound statement")
         else:
-            ctx.violate("RESET", "C10.reset", f"in-place {call.func.attr}() on the moving molecule is not preceded, within the iteration, by a "
+            ctx.violate("RESET", "C10.reset", f"in-place {mname}() on the moving molecule is not paired, within the iteration, with a "
                         "restore of its positions from a snapshot taken before the loop: frame k depends on frames 0..k-1", where,
-                        src(call)[:160], witness=f"resets before it in the loop body: {[norm_stmt(r[1]) for r in dom]}")
+                        src(call)[:160], witness=f"restores of {recv}.positions in the loop body: {[norm_stmt(r[1]) for r in same]}")
 
     # ---------------- PARITY
-    rot_calls = [(k, st, c) for k, st, c, r in mutator_sites if c.func.attr == "rotate"]
-    tr_calls = [(k, st, c) for k, st, c, r in mutator_sites if c.func.attr == "translate"]
-    local = {}
-    for st in body:
-        if isinstance(st, ast.Assign) and isinstance(st.targets[0], ast.Name):
-            local[st.targets[0].id] = st.value
-
-    def expand(e, depth=0):
-        if depth > 5:
-            return e
-        if isinstance(e, ast.Name) and e.id in local:
-            return expand(local[e.id], depth + 1)
-        return e
+    rot_calls = [(k, st, c) for k, st, c, r in mutator_sites if isinstance(c, ast.Call) and c.func.attr == "rotate"]
+    tr_calls = [(k, st, c) for k, st, c, r in mutator_sites if isinstance(c, ast.Call) and c.func.attr == "translate"]
     ctx.instance("PARITY", 2)
     if len(rot_calls) != 1 or len(tr_calls) != 1:
         ctx.inconclusive("PARITY", "C10.parity", "expected one rotate and one translate per frame", where,
@@ -127,16 +174,27 @@ def run(ctx, repo, tier):
     else:
         rk, _, rc = rot_calls[0]
         tk, _, tc = tr_calls[0]
-        ctx.check(rk < tk, "ORD", "C10.order", "rotate about the centre of mass first, translate afterwards", where,
-                  witness="translate precedes rotate: the rotation would act about a displaced point unless the point is updated")
-        m = rc.args[0] if rc.args else None
+        rkw = {k.arg: k.value for k in rc.keywords}
+        m = rc.args[0] if rc.args else rkw.get("R")
+        pt = rkw.get("point", rc.args[1] if len(rc.args) > 1 else None)
+        recv = call_.text(rc.func.value)
+        pt_txt = call_.text(pt) if pt is not None else None
+        if rk < tk:
+            ctx.ok("ORD", "C10.order", "rotate first (molecule still centred), translate afterwards", where)
+        elif pt_txt is not None and pt_txt.replace(" ", "") in (recv + ".center_of_mass()", recv + ".center_of_geometry()"):
+            ctx.ok("ORD", "C10.order", "translate first, then rotate about the molecule's own current centre (evaluated at the call): same frame", where)
+        elif pt is None:
+            ctx.violate("ORD", "C10.order", "the molecule is translated first and then rotated about the ORIGIN: the position of the frame is "
+                        "R(q)·p instead of p", where, src(rc)[:120], witness="translate precedes rotate; rotate has no point= argument")
+        else:
+            ctx.inconclusive("ORD", "C10.order", "translate precedes rotate and the rotation point is not recognised", where, witness=pt_txt[:100])
         # walk the chain  Rotation.from_quat(q).<...>.as_matrix()<.T...>
         inversions = 0
-        e = m
+        e = call_.expand(m) if m is not None else None
         seen_from_quat = None
         steps = []
-        for _ in range(12):
-            e = expand(e) if isinstance(e, ast.Name) else e
+        unknown_step = None
+        for _ in range(14):
             if isinstance(e, ast.Attribute) and e.attr == "T":
                 inversions += 1
                 steps.append(".T")
@@ -147,89 +205,158 @@ def run(ctx, repo, tier):
                 if a == "from_quat" or d.endswith("Rotation.from_quat"):
                     seen_from_quat = e
                     break
+                if d in ("numpy.linalg.inv", "numpy.transpose", "numpy.linalg.pinv") and e.args:
+                    inversions += 1
+                    steps.append("inv()")
+                    e = e.args[0]
+                    continue
+                if d in ("numpy.asarray", "numpy.array", "numpy.ascontiguousarray") and e.args:
+                    e = e.args[0]
+                    continue
                 if a in ("inv", "transpose"):
                     inversions += 1
+                elif a not in ("as_matrix", "as_dcm", "copy", "astype"):
+                    unknown_step = a
+                    break
                 steps.append("." + a + "()")
                 e = e.func.value
-            elif isinstance(e, ast.Call) and (repo.dotted_of(gen.module, e.func) or "") in ("numpy.linalg.inv", "numpy.transpose"):
-                inversions += 1
-                steps.append("inv()")
-                e = e.args[0]
             else:
                 break
-        if seen_from_quat is None:
-            ctx.inconclusive("PARITY", "C10.parity.rotation", "rotation matrix is not derived from Rotation.from_quat(...)", where, src(m)[:160] if m is not None else "")
+        if seen_from_quat is None or unknown_step:
+            ctx.inconclusive("PARITY", "C10.parity.rotation", "rotation matrix is not derived from Rotation.from_quat(...) by a recognised chain",
+                             where, witness=(f"step .{unknown_step}() " if unknown_step else "") + (src(m)[:160] if m is not None else ""))
         else:
             ctx.check(inversions % 2 == 0, "PARITY", "C10.parity.rotation", "the matrix handed to rotate() is R(q) of the row's quaternion "
                       "(even number of inversions/transposes on the chain)", where, src(rc)[:160],
                       witness=f"{inversions} inversion(s): {''.join(reversed(steps))}")
-            q = expand(seen_from_quat.args[0]) if seen_from_quat.args else None
-            okq = isinstance(q, ast.Subscript) and isinstance(q.value, ast.Name) and q.value.id == row and isinstance(q.slice, ast.Slice) and \
-                isinstance(q.slice.lower, ast.Constant) and q.slice.lower.value == 3 and q.slice.upper is None
-            ctx.check(okq, "LAYOUT", "C10.parity.quaternion", "the quaternion is columns [3:] of the current grid row", where,
-                      src(seen_from_quat)[:120], witness=src(q) if q is not None else "")
-            kws = {k.arg for k in seen_from_quat.keywords}
-            ctx.check("scalar_first" not in kws, "PARITY", "C10.convention.pts", "scalar-last quaternion convention (default constructor)", where,
-                      src(seen_from_quat)[:120], witness=str(kws))
-        pt = {k.arg: k.value for k in rc.keywords}.get("point", rc.args[1] if len(rc.args) > 1 else None)
-        recv = chain(rc.func.value)
+            q = strip_wrappers(seen_from_quat.args[0]) if seen_from_quat.args else None
+            qs = const_slice(q)
+            if qs is not None and isinstance(q.value, ast.Name) and q.value.id == row:
+                if qs[0] == 3 and qs[1] in (None, 7) and qs[2] in (None, 1):
+                    ctx.ok("LAYOUT", "C10.parity.quaternion", "the quaternion is columns [3:] of the current grid row", where, src(seen_from_quat)[:120])
+                else:
+                    ctx.violate("LAYOUT", "C10.parity.quaternion", "the quaternion is not columns [3:7] of the current grid row", where,
+                                src(seen_from_quat)[:120], witness=f"{row}[{qs[0]}:{qs[1]}:{qs[2]}]")
+            else:
+                ctx.inconclusive("LAYOUT", "C10.parity.quaternion", "argument of from_quat is not a constant slice of the current row", where,
+                                 witness=src(q)[:120] if q is not None else "")
+            kws = {k.arg: k.value for k in seen_from_quat.keywords}
+            sf = kws.get("scalar_first")
+            if sf is None or (isinstance(sf, ast.Constant) and sf.value is False):
+                ctx.ok("PARITY", "C10.convention.pts", "scalar-last quaternion convention (default constructor)", where, src(seen_from_quat)[:120])
+            elif isinstance(sf, ast.Constant) and sf.value is True:
+                ctx.violate("PARITY", "C10.convention.pts", "the row's quaternion is read scalar-first although grids store (x, y, z, w)", where,
+                            src(seen_from_quat)[:120], witness="scalar_first=True")
+            else:
+                ctx.inconclusive("PARITY", "C10.convention.pts", "quaternion convention not constant", where, witness=src(sf))
         # rotation about the origin and about the centre of mass coincide for centred molecules (precondition of the property):
         # recorded, deliberately not judged
         ctx.notes.append(f"rotation point: {src(pt) if pt is not None else 'origin (default)'}")
-        t = expand(tc.args[0]) if tc.args else None
-        okt = isinstance(t, ast.Subscript) and isinstance(t.value, ast.Name) and t.value.id == row and isinstance(t.slice, ast.Slice) and \
-            t.slice.lower is None and isinstance(t.slice.upper, ast.Constant) and t.slice.upper.value == 3
-        neg = isinstance(tc.args[0], ast.UnaryOp) if tc.args else False
-        if okt and not neg:
-            ctx.ok("PARITY", "C10.parity.translation", "translation by +row[:3]", where, src(tc)[:120])
-        elif neg or (isinstance(t, ast.UnaryOp) and isinstance(t.op, ast.USub)):
-            ctx.violate("PARITY", "C10.parity.translation", "the molecule is translated by the NEGATIVE of the row's position", where, src(tc)[:120],
-                        witness=src(tc.args[0]))
+        tkw = {k.arg: k.value for k in tc.keywords}
+        targ = tc.args[0] if tc.args else tkw.get("t")
+        t = call_.expand(targ) if targ is not None else None
+        negs = 0
+        t = strip_wrappers(t) if t is not None else None
+        while isinstance(t, ast.UnaryOp) and isinstance(t.op, (ast.USub, ast.UAdd)):
+            negs += 1 if isinstance(t.op, ast.USub) else 0
+            t = strip_wrappers(t.operand)
+        ts = const_slice(t)
+        if ts is not None and isinstance(t.value, ast.Name) and t.value.id == row:
+            if ts[0] in (None, 0) and ts[1] == 3 and ts[2] in (None, 1):
+                if negs % 2 == 0:
+                    ctx.ok("PARITY", "C10.parity.translation", "translation by +row[:3]", where, src(tc)[:120])
+                else:
+                    ctx.violate("PARITY", "C10.parity.translation", "the molecule is translated by the NEGATIVE of the row's position", where,
+                                src(tc)[:120], witness=src(targ))
+            else:
+                ctx.violate("LAYOUT", "C10.parity.translation", "translation vector is not columns [:3] of the current row", where, src(tc)[:120],
+                            witness=f"{row}[{ts[0]}:{ts[1]}:{ts[2]}]")
         else:
-            ctx.violate("LAYOUT", "C10.parity.translation", "translation vector is not columns [:3] of the current row", where, src(tc)[:120],
-                        witness=src(t) if t is not None else "")
+            ctx.inconclusive("LAYOUT", "C10.parity.translation", "translation vector is not a constant slice of the current row", where,
+                             witness=src(targ)[:120] if targ is not None else "no argument")
     # ---------------- one frame per row, atom order
     yields = [n for n in ast.walk(loop) if isinstance(n, ast.Yield)]
     top_yields = [st for st in body if isinstance(st, ast.Expr) and isinstance(st.value, ast.Yield)]
+    cond_yields = []
+    for st in body:
+        if isinstance(st, (ast.If, ast.While, ast.Try, ast.For)):
+            cond_yields += [n for n in ast.walk(st) if isinstance(n, ast.Yield)]
     ctx.instance("ORD", 2)
-    ctx.check(len(yields) == 1 and len(top_yields) == 1, "ORD", "C10.one_frame", "exactly one frame is yielded per grid row, unconditionally",
-              where, witness=f"{len(yields)} yield(s), {len(top_yields)} at the top level of the loop body")
+    if len(yields) == 1 and len(top_yields) == 1:
+        ctx.ok("ORD", "C10.one_frame", "exactly one frame is yielded per grid row, unconditionally", where)
+    elif cond_yields and isinstance([st for st in body if cond_yields[0] in ast.walk(st)][0], ast.If):
+        ctx.violate("ORD", "C10.one_frame", "a frame is yielded only under a condition: some grid rows produce no frame, frame k is not row k",
+                    where, witness=src([st for st in body if cond_yields[0] in ast.walk(st)][0].test)[:100])
+    else:
+        ctx.inconclusive("ORD", "C10.one_frame", "number of frames per grid row not recognised", where,
+                         witness=f"{len(yields)} yield(s), {len(top_yields)} at the top level of the loop body")
     merges = [n for n in ast.walk(loop) if isinstance(n, ast.Call) and (repo.dotted_of(gen.module, n.func) or "").endswith("Merge")]
     if merges:
-        a = [src(x) for x in merges[0].args]
-        ctx.check(a == ["self.static_molecule.atoms", "self.moving_molecule.atoms"], "ORD", "C10.atom_order", "atoms of a frame are "
-                  "molecule 1 followed by molecule 2", where, src(merges[0]), witness=str(a))
-        if top_yields:
-            last_mut = max([k for k, *_ in mutator_sites], default=-1)
-            mk = [k for k, st in enumerate(body) if merges[0] in ast.walk(st)]
-            ctx.check(bool(mk) and mk[0] > last_mut, "ORD", "C10.merge_after", "the frame is assembled after rotation and translation", where,
-                      witness="Merge precedes a mutation")
+        a = [call_.text(x) for x in merges[0].args]
+        if a == ["self.static_molecule.atoms", "self.moving_molecule.atoms"]:
+            ctx.ok("ORD", "C10.atom_order", "atoms of a frame are molecule 1 followed by molecule 2", where, src(merges[0]))
+        elif a == ["self.moving_molecule.atoms", "self.static_molecule.atoms"]:
+            ctx.violate("ORD", "C10.atom_order", "atoms of a frame are molecule 2 followed by molecule 1 (the selections `bynum n1+1:` and the "
+                        "topology assume molecule 1 first)", where, src(merges[0]), witness=str(a))
+        else:
+            ctx.inconclusive("ORD", "C10.atom_order", "arguments of Merge not recognised", where, witness=str(a))
+        mk = [k for k, st in enumerate(body) if merges[0] in ast.walk(st)]
+        yk = [k for k, st in enumerate(body) if any(y in ast.walk(st) for y in yields)]
+        muts_between = [k for k, *_ in mutator_sites if mk and yk and mk[0] < k <= yk[0]]
+        if mk and yk and muts_between:
+            # Merge copies the atoms' coordinates at call time
+            ctx.violate("ORD", "C10.merge_after", "the frame is assembled (Merge copies the coordinates) before the last rotation/translation of "
+                        "the iteration", where, src(merges[0]), witness=f"mutator statement #{muts_between[0]} follows the Merge statement #{mk[0]}")
+        else:
+            ctx.ok("ORD", "C10.merge_after", "the frame is assembled after rotation and translation", where)
     else:
         ctx.inconclusive("ORD", "C10.atom_order", "Merge of the two molecules not found in the loop", where)
     # copies of the molecules are taken at construction
     init = pci.methods.get("__init__")
     if init is not None:
         ctx.analysed(init)
-        cp = {src(n.targets[0]): src(n.value) for n in ast.walk(init.node) if isinstance(n, ast.Assign) and len(n.targets) == 1}
+        iparams = {a.arg for a in init.node.args.args}
+        cp = {src(n.targets[0]): n.value for n in ast.walk(init.node) if isinstance(n, ast.Assign) and len(n.targets) == 1}
         ctx.instance("OWN")
-        ctx.check(cp.get("self.static_molecule", "").endswith(".copy()") and cp.get("self.moving_molecule", "").endswith(".copy()"), "OWN",
-                  "C10.copies", "the pseudotrajectory manipulates its own copies of both molecules", init.where,
-                  witness=f"{cp.get('self.static_molecule')}, {cp.get('self.moving_molecule')}")
+        for attr in ("self.static_molecule", "self.moving_molecule"):
+            v = cp.get(attr)
+            if v is None:
+                ctx.inconclusive("OWN", f"C10.copies.{attr[5:]}", "molecule attribute not assigned in __init__", init.where)
+            elif isinstance(v, ast.Call) and (src(v.func).endswith(".copy") or src(v.func) in ("deepcopy", "copy.deepcopy")):
+                ctx.ok("OWN", f"C10.copies.{attr[5:]}", "the pseudotrajectory manipulates its own copy of the molecule", init.where, src(v))
+            elif isinstance(v, ast.Name) and v.id in iparams:
+                ctx.violate("OWN", f"C10.copies.{attr[5:]}", "the caller's molecule object is moved in place by the frame loop (no copy taken): "
+                            "frames depend on, and change, state outside the pseudotrajectory", init.where, f"{attr} = {src(v)}", witness=src(v))
+            else:
+                ctx.inconclusive("OWN", f"C10.copies.{attr[5:]}", "origin of the molecule attribute not recognised", init.where, witness=src(v)[:100])
     # ---------------- collection order in get_pt_as_universe
     gp = pci.methods.get("get_pt_as_universe")
     if gp is None:
         raise AnalysisError("anchor vanished: Pseudotrajectory.get_pt_as_universe")
     ctx.analysed(gp)
-    comps = [n for n in ast.walk(gp.node) if isinstance(n, ast.ListComp)]
+    comps = [n for n in ast.walk(gp.node) if isinstance(n, (ast.ListComp, ast.GeneratorExp))]
     ctx.instance("ORD", len(comps))
     gen_comp = [c for c in comps if "generate_pseudotrajectory" in src(c.generators[0].iter)]
-    ok = bool(gen_comp) and all(not g.ifs for c in comps for g in c.generators)
-    srt = [n for n in ast.walk(gp.node) if isinstance(n, ast.Call) and src(n.func) in ("sorted", "reversed", "np.flip") or
-           (isinstance(n, ast.Subscript) and isinstance(n.slice, ast.Slice) and n.slice.step is not None)]
-    ctx.check(ok and not srt, "ORD", "C10.collect", "frames are collected from the generator by order-preserving, unfiltered comprehensions", gp.where,
-              witness=f"filters or re-ordering present: {[src(x)[:40] for x in srt]}")
-    once = [n for n in ast.walk(gp.node) if isinstance(n, ast.If) and "self.pt is None" in src(n.test)]
-    ctx.check(len(once) >= 1, "IDEMP", "C10.once", "the generator is consumed once (init-once guard on self.pt)", gp.where, witness="no guard")
+    filt = [g for c in comps for g in c.generators if g.ifs]
+    srt = [n for n in ast.walk(gp.node) if (isinstance(n, ast.Call) and src(n.func).split(".")[-1] in ("sorted", "reversed", "flip", "sort", "reverse", "shuffle")) or
+           (isinstance(n, ast.Subscript) and const_slice(n) is not None and const_slice(n)[2] not in (None, 1))]
+    if filt or srt:
+        ctx.violate("ORD", "C10.collect", "frames are filtered or re-ordered when they are collected from the generator", gp.where,
+                    witness=f"{[src(x)[:40] for x in srt] + [src(g.ifs[0])[:40] for g in filt]}")
+    elif gen_comp:
+        ctx.ok("ORD", "C10.collect", "frames are collected from the generator by order-preserving, unfiltered comprehensions", gp.where)
+    else:
+        ctx.inconclusive("ORD", "C10.collect", "collection of the frames from the generator not recognised", gp.where)
+    guards = [n for n in ast.walk(gp.node) if isinstance(n, ast.If) and "self.pt" in src(n.test)]
+    calls_gen = [n for n in ast.walk(gp.node) if isinstance(n, ast.Call) and src(n.func).endswith("generate_pseudotrajectory")]
+    if guards:
+        ctx.ok("IDEMP", "C10.once", "the generator is consumed once (init-once guard on self.pt)", gp.where)
+    elif calls_gen:
+        ctx.violate("IDEMP", "C10.once", "every call regenerates the frames from the molecule's CURRENT geometry (the snapshot is taken when "
+                    "the generator starts, the molecule is left at the last frame): the second universe differs from the first", gp.where,
+                    src(calls_gen[0]), witness="no init-once guard on self.pt")
+    else:
+        ctx.inconclusive("IDEMP", "C10.once", "generator use not recognised", gp.where)
     # ---------------- sibling selections of the second molecule
     selection_siblings(ctx, repo, "C10")
     # ---------------- quaternion convention in assignment
@@ -240,37 +367,67 @@ def run(ctx, repo, tier):
         rc_ = [n for n in ast.walk(qa.node) if isinstance(n, ast.Call) and (repo.dotted_of(qa.module, n.func) or "").startswith("scipy.spatial.transform.Rotation")
                and "b_array" in src(n)]
         ctx.instance("PARITY")
-        ctx.check(bool(rc_) and all("scalar_first" not in {k.arg for k in c.keywords} for c in rc_), "PARITY", "C10.convention.assign",
-                  "assignment builds grid rotations with the same scalar-last convention", qa.where, src(rc_[0])[:100] if rc_ else "", witness="convention differs")
+        bad = [c for c in rc_ for k in c.keywords if k.arg == "scalar_first" and isinstance(k.value, ast.Constant) and k.value.value is True]
+        if bad:
+            ctx.violate("PARITY", "C10.convention.assign", "assignment reads the grid quaternions scalar-first while the pseudotrajectory reads them "
+                        "scalar-last", qa.where, src(bad[0])[:100], witness="scalar_first=True")
+        elif rc_:
+            ctx.ok("PARITY", "C10.convention.assign", "assignment builds grid rotations with the same scalar-last convention", qa.where, src(rc_[0])[:100])
+        else:
+            ctx.inconclusive("PARITY", "C10.convention.assign", "construction of the grid rotations in the assignment not found", qa.where)
     # ---------------- writer: both molecules centred, wiring of PtWriter
     tw = repo.cls("molgri.io", "TwoMoleculeWriter")
     cb = tw.methods.get("_center_both_molecules")
     if cb is None:
         raise AnalysisError("anchor vanished: TwoMoleculeWriter._center_both_molecules")
     ctx.analysed(cb)
+    ccb = Canon(Canon.single_defs(cb.node.body))
     trs = [n for n in ast.walk(cb.node) if isinstance(n, ast.Call) and isinstance(n.func, ast.Attribute) and n.func.attr == "translate"]
-    coms = {n.targets[0].id: src(n.value) for n in ast.walk(cb.node) if isinstance(n, ast.Assign) and isinstance(n.targets[0], ast.Name)}
-    okc = len(trs) == 2
-    for t in trs:
-        a = t.args[0] if t.args else None
-        recv = src(t.func.value)
-        okc = okc and isinstance(a, ast.UnaryOp) and isinstance(a.op, ast.USub) and isinstance(a.operand, ast.Name) and \
-            coms.get(a.operand.id, "") == recv + ".center_of_mass()"
     ctx.instance("PARITY")
-    ctx.check(okc, "PARITY", "C10.writer.centre", "the writer translates each molecule by minus its own centre of mass", cb.where,
-              witness=str([src(t) for t in trs]))
+    verdicts = []
+    for t in trs:
+        a = t.args[0] if t.args else {k.arg: k.value for k in t.keywords}.get("t")
+        recv = ccb.text(t.func.value)
+        atxt = ccb.text(a).replace(" ", "") if a is not None else ""
+        if atxt in (f"-{recv}.center_of_mass()", f"-1*{recv}.center_of_mass()", f"-({recv}.center_of_mass())"):
+            verdicts.append("ok")
+        elif atxt == f"{recv}.center_of_mass()":
+            verdicts.append("plus")
+        elif atxt.endswith(".center_of_mass()") and atxt.startswith("-"):
+            verdicts.append("other")
+        else:
+            verdicts.append("unknown")
+    if len(trs) == 2 and verdicts == ["ok", "ok"]:
+        ctx.ok("PARITY", "C10.writer.centre", "the writer translates each molecule by minus its own centre of mass", cb.where)
+    elif "plus" in verdicts or "other" in verdicts:
+        ctx.violate("PARITY", "C10.writer.centre", "a molecule is not translated by minus its OWN centre of mass: the precondition 'molecules "
+                    "centred' is not established by the writer", cb.where, witness=str([src(t) for t in trs]))
+    else:
+        ctx.inconclusive("PARITY", "C10.writer.centre", "centring idiom not recognised", cb.where, witness=str([src(t) for t in trs]))
     init_w = tw.methods.get("__init__")
     ctx.check(init_w is not None and "_center_both_molecules" in src(init_w.node), "DOM", "C10.writer.centre_called", "centring happens at "
-              "construction of the writer", init_w.where if init_w else "", witness="not called")
+              "construction of the writer", init_w.where if init_w else "", witness="_center_both_molecules is never called from __init__")
     pw = repo.cls("molgri.io", "PtWriter")
     pinit = pw.methods.get("__init__")
-    if pinit is not None:
+    if pinit is not None and init is not None:
         ctx.analysed(pinit)
         pc = [n for n in ast.walk(pinit.node) if isinstance(n, ast.Call) and isinstance(n.func, ast.Name) and n.func.id == "Pseudotrajectory"]
         ctx.instance("FLOW")
-        ctx.check(bool(pc) and [src(a) for a in pc[0].args] == ["self.central_molecule", "self.moving_molecule", "self.grid_array"], "FLOW",
-                  "C10.writer.wiring", "PtWriter passes (central molecule, moving molecule, loaded grid array) in that order", pinit.where,
-                  src(pc[0]) if pc else "", witness=str([src(a) for a in pc[0].args]) if pc else "no call")
+        b = _bind(pc[0], init.node) if pc else None
+        if b is None:
+            ctx.inconclusive("FLOW", "C10.writer.wiring", "construction of the Pseudotrajectory in PtWriter not recognised", pinit.where)
+        else:
+            got = {k: src(v) for k, v in b.items()}
+            want = {"molecule1": "self.central_molecule", "molecule2": "self.moving_molecule", "full_grid": "self.grid_array"}
+            swapped = got.get("molecule1") == want["molecule2"] or got.get("molecule2") == want["molecule1"]
+            if all(got.get(k) == v for k, v in want.items()):
+                ctx.ok("FLOW", "C10.writer.wiring", "PtWriter passes (central molecule, moving molecule, loaded grid array) to the matching "
+                       "parameters", pinit.where, src(pc[0]))
+            elif swapped:
+                ctx.violate("FLOW", "C10.writer.wiring", "PtWriter hands the moving molecule to the static role (or vice versa)", pinit.where,
+                            src(pc[0]), witness=str(got))
+            else:
+                ctx.inconclusive("FLOW", "C10.writer.wiring", "arguments of Pseudotrajectory(...) not recognised", pinit.where, witness=str(got))
     ctx.require_instances("RESET", 3, "reset obligations")
     ctx.trust(*META["trusted"])
     ctx.assume(*META["assumptions"])
@@ -311,15 +468,57 @@ def selection_siblings(ctx, repo, pid):
         norms = {norm(p, f) for f, j, p in second}
         ctx.check(len(norms) == 1, "PAIR", f"{pid}.selection", "pseudotrajectory, reader and assignment select the second molecule with the same "
                   "`bynum <n1+1>:<n_total+1>` pattern (atoms of molecule 1 come first)", "molgri/molecules/pts.py", witness=str(norms))
+        from ..alg import Poly
+        N1, N2 = Poly.sym("n1"), Poly.sym("n2")
+
+        def role(txt):
+            t = txt.lower()
+            for key, val in (("static", N1), ("central", N1), ("molecule1", N1), ("first", N1), ("m1", N1),
+                             ("moving", N2), ("reference", N2), ("molecule2", N2), ("second", N2), ("m2", N2),
+                             ("universe", N1 + N2), ("total", N1 + N2)):
+                if key in t:
+                    return val
+            return None
+
+        def ev(e, defs, depth=0):
+            if depth > 8:
+                return None
+            if isinstance(e, ast.Constant) and isinstance(e.value, int):
+                return Poly.const(e.value)
+            if isinstance(e, ast.Name):
+                if e.id in defs:
+                    return ev(defs[e.id], defs, depth + 1)
+                return None
+            if isinstance(e, ast.BinOp) and isinstance(e.op, (ast.Add, ast.Sub)):
+                a, b = ev(e.left, defs, depth + 1), ev(e.right, defs, depth + 1)
+                if a is None or b is None:
+                    return None
+                return a + b if isinstance(e.op, ast.Add) else a - b
+            if isinstance(e, ast.Call) and isinstance(e.func, ast.Name) and e.func.id == "len" and len(e.args) == 1:
+                a = e.args[0]
+                if isinstance(a, ast.Attribute) and a.attr == "atoms":
+                    a = a.value
+                if isinstance(a, ast.Name) and a.id in defs:
+                    return role(a.id) or role(src(defs[a.id]))
+                return role(src(a))
+            if isinstance(e, ast.Attribute) and e.attr == "n_atoms":
+                a = e.value
+                if isinstance(a, ast.Attribute) and a.attr == "atoms":
+                    a = a.value
+                if isinstance(a, ast.Name) and a.id in defs:
+                    return role(a.id) or role(src(defs[a.id]))
+                return role(src(a))
+            return None
         for f, j, p in second:
-            exprs = [e for k, e in p if k == "e"]
-            fsrc = src(f.node)
-            ok = True
-            first = exprs[0].replace(" ", "")[:-2]
-            # definition of the first count: either len(static...) or total - m2
-            d = [n for n in ast.walk(f.node) if isinstance(n, ast.Assign) and isinstance(n.targets[0], ast.Name) and n.targets[0].id == first]
-            if d:
-                v = src(d[0].value)
-                ok = ("static" in v and "len(" in v) or ("-" in v and "total" in v)
-            ctx.check(ok, "PAIR", f"{pid}.selection.{f.cls.name}", "the start of the selection is the atom count of molecule 1 plus one", f.where,
-                      src(j), witness=src(d[0].value) if d else first)
+            defs = Canon.single_defs(f.node.body)
+            vals = [ev(v.value, defs) for v in j.values if isinstance(v, ast.FormattedValue)]
+            if len(vals) != 2 or any(v is None for v in vals):
+                ctx.inconclusive("PAIR", f"{pid}.selection.{f.cls.name}", "bounds of the second-molecule selection not derived as atom counts",
+                                 f.where, witness=src(j))
+            elif vals[0] == N1 + 1 and vals[1] == N1 + N2 + 1:
+                ctx.ok("PAIR", f"{pid}.selection.{f.cls.name}", "selection of molecule 2 is `bynum n1+1 : n1+n2+1` (n1 = atoms of the first "
+                       "molecule, which Merge puts first)", f.where, src(j))
+            else:
+                ctx.violate("PAIR", f"{pid}.selection.{f.cls.name}", "the second-molecule selection does not start after the n1 atoms of "
+                            "molecule 1 / end at the last atom", f.where, src(j),
+                            witness=f"derived bounds {vals[0].pretty()} : {vals[1].pretty()} (expected n1 + 1 : n1 + n2 + 1)")
